@@ -66,7 +66,7 @@ LEVEL.update({
 REASON_NOT_YET="check under construction in this session (see DESIGN.md §6); not claimed yet"
 m={
  "version":1,
- "setup_cmd":"cd /verif/engine && GOFLAGS=-mod=mod GOPROXY=off GOSUMDB=off GOTOOLCHAIN=local go build -o ../bin/gosmt .",
+ "setup_cmd":"cd /verif/engine && GOFLAGS=-mod=mod GOPROXY=off GOSUMDB=off GOTOOLCHAIN=local go build -o ../bin/gosmt . && ../bin/gosmt selftest",
  "hooks":{"guard":"verif","enable":"none needed: harnesses are injected with go/packages Overlay and go test -overlay; no file is added to /repo","baseline_off_cmd":base["cmd"],
           "source_commits":[],"add_only":True},
  "engines":[{"name":"gosmt","path":"/verif/engine","serves_properties":sorted(checks.keys()),
